@@ -30,6 +30,10 @@ pub enum Pattern {
     /// origin sends one byte every 0.6 T, k times (the client stays silent)
     TrickleS2c(u8),
     Alternating(u8),
+    /// the client half-closes after an echo; the origin keeps its side open and silent
+    ClientHalfCloseThenSilence,
+    /// the origin half-closes after an echo; the client keeps its side open and silent
+    OriginHalfCloseThenSilence,
 }
 
 #[derive(Clone, Debug, Serialize, Deserialize)]
@@ -102,7 +106,8 @@ metrics:
     Ok(Instance { proxy, http, socks, reverse, reverse_udp, api })
 }
 
-/// origin protocol: the first byte of a connection selects the behaviour: 'E' echo, 'T' k p: send k bytes with period p*10ms
+/// origin protocol: the first byte of a connection selects the behaviour: 'E' echo, 'T' k p: send k bytes with period p*10ms,
+/// 'H' echo and stay open and silent after the client's FIN, 'F' echo, then send FIN and keep reading
 async fn tcp_origin() -> (SocketAddr, tokio::task::JoinHandle<()>) {
     let l = tokio::net::TcpListener::bind("127.0.0.1:0").await.unwrap();
     let addr = l.local_addr().unwrap();
@@ -115,11 +120,25 @@ async fn tcp_origin() -> (SocketAddr, tokio::task::JoinHandle<()>) {
             tokio::spawn(async move {
                 let mut buf = [0u8; 4096];
                 let mut first = true;
+                let mut hold = false;
                 loop {
                     match s.read(&mut buf).await {
+                        Ok(0) if hold => {
+                            // half-closed by the peer: stay open, say nothing
+                            tokio::time::sleep(Duration::from_secs(30)).await;
+                            break;
+                        }
                         Ok(0) | Err(_) => break,
                         Ok(n) => {
-                            if first && buf[0] == b'T' && n >= 3 {
+                            if first && (buf[0] == b'H' || buf[0] == b'F') {
+                                hold = true;
+                                if s.write_all(&buf[..n]).await.is_err() {
+                                    break;
+                                }
+                                if buf[0] == b'F' {
+                                    let _ = s.shutdown().await;
+                                }
+                            } else if first && buf[0] == b'T' && n >= 3 {
                                 let (k, p) = (buf[1], buf[2]);
                                 for _ in 0..k {
                                     tokio::time::sleep(Duration::from_millis(p as u64 * 10)).await;
@@ -214,6 +233,7 @@ async fn run_case(inst: &Instance, origin: SocketAddr, udp_orig: SocketAddr, c: 
             }
             let mut last = Instant::now();
             let mut closed_during = false;
+            let mut half_closed = false;
             let mut buf = [0u8; 256];
             match c.pattern {
                 Pattern::Silent => {}
@@ -245,6 +265,28 @@ async fn run_case(inst: &Instance, origin: SocketAddr, udp_orig: SocketAddr, c: 
                         last = Instant::now();
                     }
                 }
+                Pattern::ClientHalfCloseThenSilence | Pattern::OriginHalfCloseThenSilence => {
+                    let origin_closes = c.pattern == Pattern::OriginHalfCloseThenSilence;
+                    s.write_all(if origin_closes { b"Fhalf" } else { b"Hhalf" }).await.map_err(|e| e.to_string())?;
+                    let mut got = 0;
+                    while got < 5 {
+                        match tokio::time::timeout(dur, s.read(&mut buf)).await {
+                            Ok(Ok(n)) if n > 0 => got += n,
+                            _ => return Err("echo failed".into()),
+                        }
+                    }
+                    if origin_closes {
+                        // the relayed FIN arrives; the tunnel itself stays (half) open
+                        match tokio::time::timeout(Duration::from_secs(3), s.read(&mut buf)).await {
+                            Ok(Ok(0)) => {}
+                            other => return Err(format!("origin FIN not relayed: {:?}", other.map(|r| r.map(|_| ())))),
+                        }
+                    } else {
+                        s.shutdown().await.map_err(|e| e.to_string())?;
+                    }
+                    last = Instant::now();
+                    half_closed = true;
+                }
                 Pattern::TrickleS2c(k) => {
                     s.write_all(&[b'T', k, (period.as_millis() / 10) as u8]).await.map_err(|e| e.to_string())?;
                     for _ in 0..k {
@@ -258,10 +300,31 @@ async fn run_case(inst: &Instance, origin: SocketAddr, udp_orig: SocketAddr, c: 
                     }
                 }
             }
-            let wiring = live_entry(inst.api, src).await.and_then(|e| e["idle_timeout"].as_u64());
+            // the proxy may not have registered a just-accepted connection yet (reverse listener: no handshake
+            // to wait for): give it a moment before concluding that it is missing from the live table
+            let mut entry = live_entry(inst.api, src).await;
+            for _ in 0..20 {
+                if entry.is_some() || half_closed {
+                    break;
+                }
+                tokio::time::sleep(Duration::from_millis(25)).await;
+                entry = live_entry(inst.api, src).await;
+            }
+            let wiring = entry.and_then(|e| e["idle_timeout"].as_u64());
             // now silence: wait for the close
             let mut closed_after = None;
-            if !closed_during {
+            if half_closed {
+                // the client socket cannot tell (its read side may already be at EOF): the tunnel is closed when
+                // it leaves the live table
+                let deadline = last + observe;
+                while Instant::now() < deadline {
+                    tokio::time::sleep(Duration::from_millis(100)).await;
+                    if live_entry(inst.api, src).await.is_none() {
+                        closed_after = Some(last.elapsed().as_secs_f64());
+                        break;
+                    }
+                }
+            } else if !closed_during {
                 let deadline = last + observe;
                 loop {
                     let now = Instant::now();
@@ -309,7 +372,7 @@ async fn run_case(inst: &Instance, origin: SocketAddr, udp_orig: SocketAddr, c: 
             let mut closed_during = false;
             let mut rb = vec![0u8; 2048];
             let rounds = match c.pattern {
-                Pattern::Silent => 0,
+                Pattern::Silent | Pattern::ClientHalfCloseThenSilence | Pattern::OriginHalfCloseThenSilence => 0,
                 Pattern::BurstThenSilence => 1,
                 Pattern::TrickleC2s(k) | Pattern::TrickleS2c(k) | Pattern::Alternating(k) => k,
             };
@@ -369,7 +432,7 @@ async fn run_case(inst: &Instance, origin: SocketAddr, udp_orig: SocketAddr, c: 
             let mut rb = vec![0u8; 2048];
             // a session exists from its first datagram on
             let rounds = match c.pattern {
-                Pattern::Silent | Pattern::BurstThenSilence => 1,
+                Pattern::Silent | Pattern::BurstThenSilence | Pattern::ClientHalfCloseThenSilence | Pattern::OriginHalfCloseThenSilence => 1,
                 Pattern::TrickleC2s(k) | Pattern::TrickleS2c(k) | Pattern::Alternating(k) => k.max(1),
             };
             let mut last = Instant::now();
@@ -474,6 +537,15 @@ pub fn cases(tier: Tier) -> Vec<Case> {
             } else {
                 vec![Pattern::Silent, Pattern::BurstThenSilence, Pattern::TrickleC2s(2), Pattern::TrickleC2s(5), Pattern::TrickleS2c(3), Pattern::TrickleS2c(5), Pattern::Alternating(4)]
             };
+            let mut pats = pats;
+            if !matches!(k, Kind::ReverseUdp | Kind::Socks5Udp) {
+                if tier == Tier::Quick {
+                    pats.push(if (ci + ki) % 2 == 0 { Pattern::ClientHalfCloseThenSilence } else { Pattern::OriginHalfCloseThenSilence });
+                } else {
+                    pats.push(Pattern::ClientHalfCloseThenSilence);
+                    pats.push(Pattern::OriginHalfCloseThenSilence);
+                }
+            }
             for p in pats {
                 if matches!(p, Pattern::TrickleS2c(_)) && matches!(k, Kind::ReverseUdp | Kind::Socks5Udp) {
                     continue;
@@ -494,7 +566,7 @@ impl SubCheck for IdleCheck {
         "idle"
     }
     fn rule(&self) -> String {
-        "five real proxy instances (timeouts absent / idle=0,udp=0 / idle=1,udp=2 / idle=2,udp=1 / idle=3) x tunnel kind {http, socks5, socks4, reverse TCP, SOCKS5 UDP association, reverse UDP session} x traffic pattern {silent, burst then silence, client trickle every 0.6 T, origin trickle every 0.6 T, alternating}, all cases of an instance in parallel, real seconds; oracle: /api/live shows idle_timeout == the configured value for that kind (TCP <- idle, UDP <- udp, absent => 600); T in 1..3: closed between T-0.1 s and T+2.5 s after the last byte and never during a trickle; T = 0 or 600: still open after 4 s of silence; a host stall (> 0.6 s heartbeat gap) makes an upper-bound miss inconclusive; non-trivial = data after establishment or a non-default timeout".into()
+        "five real proxy instances (timeouts absent / idle=0,udp=0 / idle=1,udp=2 / idle=2,udp=1 / idle=3) x tunnel kind {http, socks5, socks4, reverse TCP, SOCKS5 UDP association, reverse UDP session} x traffic pattern {silent, burst then silence, client trickle every 0.6 T, origin trickle every 0.6 T, alternating, client half-close then silence, origin half-close then silence (TCP kinds; closure observed through /api/live)}, all cases of an instance in parallel, real seconds; oracle: /api/live shows idle_timeout == the configured value for that kind (TCP <- idle, UDP <- udp, absent => 600); T in 1..3: closed between T-0.1 s and T+2.5 s after the last byte and never during a trickle; T = 0 or 600: still open after 4 s of silence; a host stall (> 0.6 s heartbeat gap) makes an upper-bound miss inconclusive; non-trivial = data after establishment or a non-default timeout".into()
     }
     fn run(&self, part: &mut Part) {
         let all = cases(part.tier);
